@@ -221,7 +221,13 @@ func init() {
 			bound = 3
 		}
 		c.Cov["rule"] = "every schedule with at most `preemption_bound_completed` preemptions of every program (2-3 client threads x 1-2 ops on one key from {Put,PutNX,PutXX,Get,Delete}, entry-point tuples, cluster/table configurations, optional janitor/compaction thread); histories checked for linearizability against a register specification plus final reads from every member; non-trivial = executions with at least one preemption"
-		schedmc.RunFamily(c, "C01", bound, 1, 0)
+		shards, maxExecs := 1, 0
+		if c.Tier == "thorough" {
+			// heavy programs are split over 4 workers; a (program, shard) exploration that reaches
+			// 150000 executions stops there and the check reports exhaustive:false
+			shards, maxExecs = 4, 150000
+		}
+		schedmc.RunFamily(c, "C01", bound, shards, maxExecs)
 		c.Cov["traces_validated_against_impl"] = 0
 		c.Assumef("sibling RPCs of one errgroup fan-out run in call order; data races are outside the cooperative scheduler's sequentially consistent model")
 	}})
